@@ -193,6 +193,11 @@ def run(ctx, chk):
                         'skipped, not discharged',
                         'MemoryAreas::with_rom (16 KiB test constructor) is outside the quantifier "a loadable ROM file"',
                         'std::io::stdout().write / flush do not panic (they return Result)']
+    # ---- rule 5: reads of the mapped ROM stay inside the file
+    from ..report import borrow
+    borrow(ctx, chk, 'C11.5', 'D', 'the ROM mapping is backed by the file: a file is accepted only if it is at least as long as the '
+           'size its header declares (a bus read of a mapped but unbacked page kills the process with SIGBUS) - clause C19.5, '
+           'evaluated here as well', 'c19', ['C19.5'], floor=1)
     return chk.finish('Abstract interpretation of memory_read_byte / memory_write_byte (devices and controller methods '
                       'inlined) with the address and value symbolic, once per (controller type, ROM bank count, RAM size) '
                       'that the header tables can produce (enumerated exhaustively from the code), buffer lengths fixed '
